@@ -69,8 +69,8 @@ def _has_strings(t):
             continue
         seen.add(i)
         if z3.is_quantifier(x):
-            todo.append(x.body())
-            continue
+            r = True        # quantified formulas are kept out of the fast path solver too
+            break
         srt = x.sort()
         if srt.kind() in (z3.Z3_SEQ_SORT, z3.Z3_RE_SORT):
             r = True
@@ -107,6 +107,15 @@ class Frame:
         return False, None
 
 
+class Forall:
+    """a universally quantified fact given as a typed schema: fn(*terms) -> z3 Bool"""
+
+    def __init__(self, types, fn, label=""):
+        self.types = tuple(types)
+        self.fn = fn
+        self.label = label
+
+
 class LoopSpec:
     """Sidecar annotation for one loop of a function (keyed by function ident + ordinal).
 
@@ -138,6 +147,7 @@ class Interp:
         self.solver = z3.Solver()
         self.solver.set("timeout", 400)
         self.fresh_n = 0
+        self.pc_ids = set()
         self.subst = []
         self.inputs = {}        # name -> z3 const (declared harness inputs, for models)
         self.vcs = []           # (name, pc snapshot, goal)
@@ -150,6 +160,7 @@ class Interp:
         self.cur_func = None
         self.steps = 0
         self.covers = []
+        self.rebind = None
 
     # ------------------------------------------------------------------ path control
     def fresh(self, prefix, sort):
@@ -167,6 +178,7 @@ class Interp:
 
     def _add_pc(self, c):
         self.pc.append(c)
+        self.pc_ids.add(c.get_id())
         if not _has_strings(c):
             self.solver.add(c)
         elif z3.is_eq(c):
@@ -182,7 +194,19 @@ class Interp:
             cond = z3.substitute(cond, *self.subst)
         return z3.simplify(cond)
 
+    def schemas(self):
+        sc = self.ghost.get("schemas")
+        if sc is None:
+            from .schema import Schemas
+            if self.ex.typing is None:
+                raise Undecided("quantified fact without a typing declaration")
+            sc = self.ghost["schemas"] = Schemas(self.ex.typing)
+        return sc
+
     def assume(self, cond):
+        if isinstance(cond, Forall):
+            self.schemas().add(cond.label, cond.types, cond.fn)
+            return
         if cond is True:
             return
         if cond is False:
@@ -233,8 +257,15 @@ class Interp:
                 return k
         return n - 1
 
-    def oblige(self, name, goal, meta=None):
+    def oblige(self, name, goal, meta=None, assume_after=True):
         """Emit a proof obligation ``pc |- goal`` and continue under ``goal``."""
+        if isinstance(goal, Forall):
+            sk = [self.fresh(f"sk@{t}", z3.IntSort()) for t in goal.types]
+            for v in sk:
+                self.inputs[str(v)] = v
+            # the skolemised instance is not assumed afterwards: its constants are of no use
+            # to later obligations and would only enlarge their instantiation sets
+            return self.oblige(name, goal.fn(*sk), meta, assume_after=False)
         self.ex.ob_names.setdefault(name, 0)
         self.ex.ob_names[name] += 1
         if isinstance(goal, bool):
@@ -242,20 +273,35 @@ class Interp:
                 self.trivial.append(name)
                 return
             # concretely false on this path: refuted iff the path is reachable
-            self.vcs.append((name, list(self.pc), z3.BoolVal(False), meta))
+            hyps = list(self.pc)
+            sc = self.ghost.get("schemas")
+            if sc is not None and sc.items:
+                inst, truncated = sc.instantiate(hyps)
+                hyps = hyps + inst
+            self.vcs.append((name, hyps, z3.BoolVal(False), meta))
             raise PathCut()
         if z3.is_and(goal) and goal.num_args() > 1:
             # goals are split per conjunct (small queries are the stable ones)
             for k, g in enumerate(goal.children()):
-                self.oblige(f"{name}.c{k}", g, meta)
+                self.oblige(f"{name}.c{k}", g, meta, assume_after)
             self.ex.ob_names[name] -= 1
             return
         if z3.is_true(self.simp(goal)):
             self.trivial.append(name)
             return
         goal = z3.simplify(goal)
-        self.vcs.append((name, list(self.pc), goal, meta))
-        self.assume(goal)
+        if goal.get_id() in self.pc_ids:
+            self.trivial.append(name)      # literally one of the assumptions
+            return
+        hyps = list(self.pc)
+        sc = self.ghost.get("schemas")
+        if sc is not None and sc.items:
+            inst, truncated = sc.instantiate(hyps + [goal])
+            hyps = hyps + inst
+            meta = dict(meta or {}, schema_instances=len(inst), truncated=truncated)
+        self.vcs.append((name, hyps, goal, meta))
+        if assume_after:
+            self.assume(goal)
 
     def cover(self, name):
         """Vacuity guard: this point must be reachable (pc satisfiable)."""
@@ -541,6 +587,20 @@ class Interp:
                 return (not t) if isinstance(t, bool) else SBool(z3.Not(t))
             return t if isinstance(t, bool) else SBool(t)
         ka, kb = kind_of(a), kind_of(b)
+        if isinstance(a, tuple) and isinstance(b, tuple) and (any(isinstance(x, Sym) for x in a + b)):
+            # lexicographic order on tuples of scalars
+            if len(a) != len(b):
+                raise Undecided("ordering of tuples of different length")
+            strict = isinstance(op, (ast.Lt, ast.Gt))
+            lt_op = ast.Lt() if isinstance(op, (ast.Lt, ast.LtE)) else ast.Gt()
+            res = z3.BoolVal(not strict)
+            for x, y in reversed(list(zip(a, b))):
+                lt = self.compare(lt_op, x, y)
+                eq = self.eq_term(x, y)
+                lt = z3.BoolVal(lt) if isinstance(lt, bool) else lt.z
+                eq = z3.BoolVal(eq) if isinstance(eq, bool) else eq
+                res = z3.Or(lt, z3.And(eq, res))
+            return SBool(z3.simplify(res))
         if not isinstance(a, Sym) and not isinstance(b, Sym):
             hook = None
             if isinstance(a, PObj):
@@ -958,6 +1018,9 @@ class Interp:
         if isinstance(fv, BoundMethod):
             return self.call(fv.func, [fv.recv] + list(args), kwargs)
         if isinstance(fv, Closure):
+            pre = self.ex.call_pre.get(fv.ident)
+            if pre is not None and self.cur_target != fv.ident:
+                pre(self, args, kwargs)     # call-site obligations of the callee's precondition
             contract = self.ex.contracts.get(fv.ident)
             if contract is not None and self.cur_target != fv.ident:
                 self.ex.used_contracts.add(fv.ident)
@@ -1197,8 +1260,16 @@ class Interp:
 
     def x_Assign(self, s, fr):
         v = self.eval(s.value, fr)
+        self.rebind = None
         for t in s.targets:
             self.assign(t, v, fr)
+        if self.rebind is not None and self.rebind[0] is v:
+            # `a = container[k] = []`: the container adopted the fresh list as an abstract
+            # value; names bound to the same object by this statement must alias it
+            for t in s.targets:
+                if isinstance(t, ast.Name) and fr.vars.get(t.id) is v:
+                    fr.vars[t.id] = self.rebind[1]
+        self.rebind = None
 
     def x_AnnAssign(self, s, fr):
         if s.value is not None:
@@ -1383,26 +1454,38 @@ class Interp:
                 if nv is None:
                     if spec.havoc is None:
                         raise Undecided(f"{tag}: cannot havoc {nme}={fr.vars[nme]!r}; sidecar must provide havoc")
+                    # unknown after an arbitrary number of iterations: unbind (a read before
+                    # re-assignment makes the path undecided instead of using a stale value);
+                    # the sidecar's havoc callback may bind it again
+                    del fr.vars[nme]
                 else:
                     fr.vars[nme] = nv
-        if iter_state is not None:
+        if iter_state is not None and "havoc" in iter_state:
+            iter_state["havoc"](self)
+        elif iter_state is not None:
             iter_state["i"] = self.fresh("idx", z3.IntSort())
             self.assume(z3.And(iter_state["i"] >= 0, iter_state["i"] <= iter_state["len"]()))
         if spec.havoc is not None:
             spec.havoc(I, fr.vars, iter_state)
         # 3. assume invariant
         for label, g in spec.invariant(I, fr.vars, iter_state):
-            I.assume(g if not isinstance(g, bool) else z3.BoolVal(g))
+            I.assume(g)
         v0 = spec.variant(I, fr.vars, iter_state) if spec.variant else None
         # 4. one arbitrary iteration or exit
         if iter_state is None:
             go = self.truthy(self.eval(s.test, fr))
+        elif "has_next" in iter_state:
+            go = self.decide(iter_state["has_next"](self))
         else:
             go = self.decide(iter_state["i"] < iter_state["len"]())
         if not go:
+            if iter_state is not None and "at_exit" in iter_state:
+                iter_state["at_exit"](self)
             self.exec_block(s.orelse, fr)
             return
-        if iter_state is not None:
+        if iter_state is not None and "take" in iter_state:
+            self.assign(s.target, iter_state["take"](self), fr)
+        elif iter_state is not None:
             self.assign(s.target, iter_state["get"](iter_state["i"]), fr)
         try:
             self.exec_block(s.body, fr)
@@ -1410,7 +1493,7 @@ class Interp:
             return
         except _Continue:
             pass
-        if iter_state is not None:
+        if iter_state is not None and "i" in iter_state:
             iter_state["i"] = iter_state["i"] + 1
         for label, g in spec.invariant(I, fr.vars, iter_state):
             I.oblige(f"{tag}.inv_preserved.{label}", g)
@@ -1449,6 +1532,8 @@ class Interp:
                 st = {"len": lambda: z3.Length(it.z), "get": lambda i: SStr(z3.SubString(it.z, i, 1)), "seq": it}
             elif isinstance(it, SList):
                 st = {"len": lambda: it.length, "get": lambda i: it.wrap(self, z3.Select(it.elem, i)), "seq": it}
+            elif hasattr(it, "iter_state"):
+                st = it.iter_state(self)
             elif isinstance(it, (list, tuple, str)):
                 raise Undecided("invariant on a concrete-length for loop")
             else:
@@ -1700,6 +1785,8 @@ class Explorer:
         self.models = {}
         self.methods = {}
         self.contracts = {}
+        self.typing = None
+        self.call_pre = {}
         self.inline = set()
         self.inline_all = False
         self.loopspecs = {}
@@ -1707,6 +1794,7 @@ class Explorer:
         self.global_overrides = {}
         self.constructors = {}
         self.truthy_hooks = {}
+        self.len_hooks = {}
         self.eq_hooks = {}
         self.order_hooks = {}
         self.contains_hooks = {}
